@@ -64,6 +64,11 @@ def judge_tree(chk, case, toks, fault):
     finds = [] if h[1] == "-" else [int(x) for x in h[1].split(",")]
     if finds != list(range(len(leaves))):          # names are unique (n00, n01, ...)
         chk.violation("schema:find-column", "find_column by leaf names gives %s" % finds, base)
+    if len(h) > 4:
+        absent = [int(x) for x in h[4].split(",")]
+        # a proper prefix of the shortest leaf name, that name + one character, and a foreign name are not columns
+        if any(x not in (-1, -9) for x in absent):
+            chk.violation("schema:find-column:absent-name-found", "find_column of names that are not columns returned %s (want -1)" % absent, base)
     if h[2] != "1" or h[3] != "1":
         chk.violation("schema:get-element-out-of-range", "get_element(out of range) did not return NULL", base)
     # leaf table used by the readers (M) and by column readers (K)
@@ -124,7 +129,7 @@ def builder_part(chk, tier, binary):
 
 def run(chk, tier, replay):
     chk.assumptions += ["Levels by the path definition (Schema.tla); the reference reader's DFS walk is checked against it for every generated schema",
-                        "Leaf names are unique in generated trees (column lookup by name is then unambiguous)"]
+                        "Leaf names are unique in generated trees and every later name is a proper prefix of every earlier one (n + x^k)"]
     binary = common.build_harness("h_file")
     cases = gen(chk, [1, 2, 3, 4] if tier == "quick" else [1, 2, 3, 4, 5])
     if tier != "quick":
